@@ -19,15 +19,23 @@ Theorem disburse_p_conserves :
 Proof. exact fee_p_conserves. Qed.
 Print Assumptions disburse_p_conserves.
 
-(* disburseFeesVQ never fails for any persisted fees and ANY vote pattern
-   (0 <= voters <= entries, including all absent) when the commit info is
-   non-empty and the vote + next-proposer weights are not both zero *)
+(* disburseFeesVQ (as repaired by commit c9cfe37) never fails for any persisted
+   fees, ALL weights and ANY vote pattern (0 <= voters <= entries, including all
+   absent) when the commit info is non-empty *)
 Theorem disburse_vq_total :
   forall last nEV nVE wV wQ known,
-    0 < nEV -> nVE <= nEV -> wV + wQ <> 0 ->
+    0 < nEV -> nVE <= nEV ->
     is_fatal (fee_vq last nEV nVE wV wQ known) = false.
 Proof. exact fee_vq_total. Qed.
 Print Assumptions disburse_vq_total.
+
+(* next proposer + every voter's share + common pool = pending fees *)
+Theorem disburse_vq_conserves :
+  forall last nEV nVE wV wQ known a b c,
+    0 < nEV -> nVE <= nEV ->
+    fee_vq last nEV nVE wV wQ known = Ok (a, b, c) -> a + b * nVE + c = last.
+Proof. exact fee_vq_conserves. Qed.
+Print Assumptions disburse_vq_conserves.
 
 (* at the initial height (empty commit info) the persisted fees are zero and
    nothing is divided *)
@@ -36,32 +44,39 @@ Theorem disburse_vq_initial_height :
 Proof. exact fee_vq_zero_fees. Qed.
 Print Assumptions disburse_vq_initial_height.
 
-(* end-of-block split followed by the next block's split never fails under the
-   sanity-checked weights, PROVIDED both use the same weights *)
+(* end-of-block split under the OLD weights followed by the next block's split
+   under ANY NEW weights never fails (a parameter change may happen in between) *)
 Theorem disburse_p_then_vq_total :
-  forall total wP wV wQ known persist b c nEV nVE known',
-    wP + wV + wQ <> 0 ->
+  forall total wP wV wQ known persist b c nEV nVE wV' wQ' known',
     fee_p total wP wV wQ known = Ok (persist, b, c) ->
     0 < nEV -> nVE <= nEV ->
-    is_fatal (fee_vq persist nEV nVE wV wQ known') = false.
+    is_fatal (fee_vq persist nEV nVE wV' wQ' known') = false.
 Proof. exact fee_p_then_vq_total. Qed.
 Print Assumptions disburse_p_then_vq_total.
 
-(* REFUTED under the sanity check alone: weights (P,V,Q) = (w,0,0) pass the
-   check, and with non-zero persisted fees the split of the next block fails.
-   Reachable when a passed change-parameters proposal sets V = Q = 0 in the
-   governance EndBlock of a block that persisted fees under the old weights. *)
-Theorem disburse_vq_total_refuted :
+(* The ORIGINAL disburseFeesVQ (before c9cfe37; definition fee_vq_original) is
+   REFUTED under the sanity check alone: weights (P,V,Q) = (w,0,0) pass the check,
+   and with non-zero persisted fees it fails where the repaired function does not.
+   A revert of the repair makes the correspondence check disagree on exactly such cases. *)
+Theorem disburse_vq_total_original_refuted :
   exists last nEV nVE wP wV wQ known,
     wP + wV + wQ <> 0 /\ 0 < nEV /\ nVE <= nEV /\ last <> 0 /\
-    fee_vq last nEV nVE wV wQ known = Fatal.
-Proof. exact fee_vq_refuted. Qed.
-Print Assumptions disburse_vq_total_refuted.
+    fee_vq_original last nEV nVE wV wQ known = Fatal /\
+    is_fatal (fee_vq last nEV nVE wV wQ known) = false.
+Proof. exact fee_vq_original_refuted. Qed.
+Print Assumptions disburse_vq_total_original_refuted.
 
-Theorem disburse_vq_fatal_zero_weights :
-  forall last nEV nVE known, last <> 0 -> fee_vq last nEV nVE 0 0 known = Fatal.
-Proof. exact fee_vq_fatal_zero_weights. Qed.
-Print Assumptions disburse_vq_fatal_zero_weights.
+Theorem disburse_vq_original_fatal_zero_weights :
+  forall last nEV nVE known, last <> 0 -> fee_vq_original last nEV nVE 0 0 known = Fatal.
+Proof. exact fee_vq_original_fatal_zero_weights. Qed.
+Print Assumptions disburse_vq_original_fatal_zero_weights.
+
+(* outside the zero-weight case the repair changes nothing *)
+Theorem disburse_vq_original_agrees :
+  forall last nEV nVE wV wQ known,
+    wV + wQ <> 0 -> fee_vq_original last nEV nVE wV wQ known = fee_vq last nEV nVE wV wQ known.
+Proof. exact fee_vq_original_agrees. Qed.
+Print Assumptions disburse_vq_original_agrees.
 
 (* AddRewards / AddRewardSingleAttenuated never fail for any escrow, factor,
    scale, pool (including a depleted one) and vote count, when the attenuation
